@@ -215,6 +215,8 @@ LIB = [
     ('ln-dup-vertex', L([1, 1], [1, 1], [3, 2])),
     ('ln-long-diag', L([1, 1], [5, 3])),
     ('ln-through-hole', L([1, 4], [7, 4])),
+    ('ln-collinear-extension', L([1, 1], [-1, 0], [-3, -1])),
+    ('ln-zigzag-vertices-on-sq', L([0, 0], [4, 8], [8, 0])),
     # --- points
     ('pt-interior', PT(4, 4)),
     ('pt-interior-off-hole', PT(1, 4)),
@@ -498,6 +500,71 @@ def rand_edges(rng, n, g):
     return es
 
 
+def rand_pt(rng, g):
+    return [rng.randint(0, g), rng.randint(0, g)]
+
+
+def rand_hole(rng, g):
+    if rng.random() < 0.5:
+        x0, x1 = sorted(rng.sample(range(0, g + 1), 2))
+        y0, y1 = sorted(rng.sample(range(0, g + 1), 2))
+        return HB(x0, y0, x1, y1)
+    return HP([rand_pt(rng, g) for _ in range(rng.randint(3, 4))])
+
+
+def rand_shape(rng, g):
+    """arbitrary valid shapes on a (g+1)^2 grid: the laws are theorems for every vertex list
+    (paths with >= 2 vertices, outlines with >= 2), simple or not, so nothing is filtered"""
+    r = rng.random()
+    if r < 0.2:
+        return PT(*rand_pt(rng, g))
+    if r < 0.5:
+        n = rng.randint(2, 5)
+        vs = [rand_pt(rng, g) for _ in range(n)]
+        if rng.random() < 0.25:
+            vs.append(list(vs[-2]))                     # retrace the last segment
+        if rng.random() < 0.15:
+            vs.append(list(vs[0]))                      # closed path
+        return L(*vs)
+    holes = [rand_hole(rng, g) for _ in range(rng.choice([0, 0, 0, 1, 1, 2]))]
+    if r < 0.65:
+        x0, x1 = sorted(rng.sample(range(0, g + 1), 2))
+        y0, y1 = sorted(rng.sample(range(0, g + 1), 2))
+        return B(x0, y0, x1, y1, holes)
+    if r < 0.8:
+        x0, x1 = sorted(rng.sample(range(0, g + 1), 2))
+        y0, y1 = sorted(rng.sample(range(0, g + 1), 2))
+        o = sq(x0, y0, x1, y1)
+        k = rng.randrange(4)
+        o = o[k:] + o[:k]
+        if rng.random() < 0.5:
+            o = o[::-1]
+        return P(o, holes)
+    o = [rand_pt(rng, g) for _ in range(rng.randint(3, 6))]
+    if rng.random() < 0.3:
+        o.append(list(o[0]))                            # already closed
+    return P(o, holes)
+
+
+def derived_shape(rng, s, g):
+    """a second shape related to s: shares vertices / is a sub-path / sits on its boundary"""
+    vs = [list(v) for v in vertices(s)]
+    r = rng.random()
+    if s['k'] == 'ln' and r < 0.4 and len(vs) >= 2:
+        i = rng.randrange(len(vs) - 1)
+        j = rng.randrange(i + 2, len(vs) + 1)
+        sub = vs[i:j]
+        if rng.random() < 0.3:
+            sub = sub[::-1]
+        return L(*sub)
+    if r < 0.55:
+        return PT(*rng.choice(vs))
+    if r < 0.8:
+        a, b = rng.choice(vs), rng.choice(vs)
+        return L(a, rand_pt(rng, g), b) if rng.random() < 0.5 else L(a, b)
+    return rand_shape(rng, g)
+
+
 def impl_sweep(ea, eb):
     return guarded(lambda: bool(do_edges_intersect([(C(a), C(b)) for a, b in ea], [(C(a), C(b)) for a, b in eb])))
 
@@ -630,6 +697,38 @@ def main():
                 m['property_clauses_violated'] = bad
             ck.count('pair-rotated')
 
+    # ---------------------------------------------------------------- seeded random shape pairs
+    # (model vs implementation, and the laws that are theorems for every valid input)
+    n_rand = 1200 if quick else 25000
+    for it in range(n_rand):
+        g = rng.choice([3, 4, 6, 8])
+        a = rand_shape(rng, g)
+        b = derived_shape(rng, a, g) if rng.random() < 0.35 else rand_shape(rng, g)
+        if rng.random() < 0.5:
+            a, b = b, a
+        da, db = next(dt_cycle)
+        lit, oi, oc = pair_case(a, b, da, db)
+        m = {'k': 'pair', 'a': a, 'b': b, 'names': ['random', 'random'], 'da': da, 'db': db, 'int': oi, 'con': oc}
+        add(lit, m)
+        bad = []
+        for nm, o in (('intersects_shape', oi), ('contains_shape', oc)):
+            if o[0] != 'Ok':
+                bad.append(('no-exception', f'{nm} raised {o[1]}'))
+        x, y = rng.choice(DTS), rng.choice(DT2)
+        o2 = observe(a, b, x, y)
+        if o2 != (oi, oc):
+            bad.append(('time-free', f'dt=({da},{db}) gives {(oi, oc)}, dt=({x},{y}) gives {o2}'))
+        mir = observe(b, a, db, da)[0]
+        if mir != oi:
+            bad.append(('symmetry', f'a.intersects_shape(b)={oi} but b.intersects_shape(a)={mir}'))
+        if oc == ('Ok', True) and oi != ('Ok', True):
+            bad.append(('contains=>intersects', f'contains_shape True, intersects_shape {oi}'))
+        if bad:
+            m['property_clauses_violated'] = bad
+        ck.count(f'pair-random:{a["k"]}-{b["k"]}')
+        if oi == ('Ok', True) or oc == ('Ok', True):
+            nontrivial.add(json.dumps([a, b], sort_keys=True))
+
     # ---------------------------------------------------------------- edges / is_sub_list
     for n in names:
         s = shapes[n]
@@ -726,9 +825,11 @@ def main():
 
     ck.finish(level='proof',
               rule='sweep: seeded random edge lists on grids 2..9 with forced duplicates/retraced/horizontal/vertical/'
-                   'chained edges + D2/D3 regression corpus; pair: all ordered pairs of the fixed 65-shape library '
+                   'chained edges + D2/D3 regression corpus; pair: all ordered pairs of the fixed 67-shape library '
                    '(dt combination cycled over the nine), rotations/reversals of the first ring in both argument '
-                   'orders (sampled in quick, all in thorough); non-trivial = sweep input where the two groups share a '
+                   'orders (sampled in quick, all in thorough); seeded random pairs of arbitrary valid shapes on grids 3..8 '
+                   '(points, paths with retracing/closing, boxes, polygons from arbitrary vertex lists, 0-2 holes; 35% of the '
+                   'second shapes derived from the first: sub-paths, own vertices, chords); non-trivial = sweep input where the two groups share a '
                    'latitude (event-order sensitive), or a pair with a True answer (distinct inputs counted)',
               assumptions=['integer coordinates |v| <= 30: the float code is exact on them (DESIGN section 3)',
                            'ensure_edge_bounds is the identity (no edge spans more than 180 degrees of longitude)',
